@@ -20,7 +20,7 @@ import ast
 
 from ujvc.core import EngineSignal, Unsupported
 from ujvc.extract import find_def, module_ast
-from ujvc.units import get, unit
+from ujvc.units import base_env, get, unit
 
 from .runphys import _catch, _real
 
@@ -72,7 +72,8 @@ def get_stack_frame_unit(ctx):
         def currentframe():
             return cur["f"]
 
-    env = {"inspect": _inspect, "StackFrame": tb.StackFrame, "TruncatedStackFrame": tb.TruncatedStackFrame, "MAX_TRACEBACK_DEPTH": MAXD, "range": range}
+    env = base_env(TB, keep=("StackFrame",))
+    env.update({"inspect": _inspect, "range": range})
     f = get(TB, "get_stack_frame", native_loops="all").compile_into(env)
     if n + 1 <= depth:  # fewer frames than the skip depth: f_back of None
         kind, val = _catch(ctx, lambda: f())
@@ -102,14 +103,16 @@ def get_stack_frame_unit(ctx):
               info=f"{flatten(r)} vs {expect(start)}")
     # same innermost call site, different callers: the result must follow the CURRENT chain
     other = chain(n + 1, tag=0)
-    fr = other
-    for _ in range(depth + 1):
+    fr, orig = other, cur["f"]
+    for _ in range(depth + 1):      # the SAME call site (same code objects and lines) ...
         if fr is None:
             break
-        prev, fr = fr, fr.f_back
-    if fr is not None:
-        fr.f_code = Code("another_caller", "/user/other.py")
-        fr.f_lineno = 999
+        fr.f_code, fr.f_lineno = orig.f_code, orig.f_lineno
+        fr, orig = fr.f_back, orig.f_back
+    while fr is not None:            # ... reached through different callers
+        fr.f_code = Code("another_caller_" + fr.f_code.co_name, "/user/other.py")
+        fr.f_lineno += 900
+        fr = fr.f_back
     cur["f"] = other
     r2 = f()
     ctx.check("depends-only-on-the-current-frame-chain(no-memoisation-across-calls)", bool(flatten(r2) == expect(other.f_back.f_back)), info=f"{flatten(r2)}")
@@ -247,3 +250,58 @@ def _replay(ob):
 
 
 REPLAYS = [("tracebacks.CallError*", _replay)]
+
+
+C19_SCRIPT = """
+import sys, uberjob
+def boom(): raise ValueError("x")
+def mklist(): return [1]
+def helper(plan): return plan.call(boom)            # one creating line, reached through two different callers
+def caller_a(plan): return helper(plan)
+def caller_b(plan): return helper(plan)
+def gathered(plan, node): return plan.call(lambda s: s, {node})    # the implicit gather_set call fails at run time (unhashable element)
+bad = []
+def frames(sf):
+    out = []
+    while sf is not None and not isinstance(sf, type(uberjob._util.traceback.TruncatedStackFrame)):
+        out.append(sf.name); sf = sf.outer
+    return out
+plan = uberjob.Plan()
+n1 = caller_a(plan); n2 = caller_b(plan)
+for node, want in ((n1, ["helper", "caller_a", "<module>"]), (n2, ["helper", "caller_b", "<module>"])):
+    try: uberjob.run(plan, output=node, progress=None)
+    except uberjob.CallError as e:
+        got = frames(e.call.stack_frame)
+        if got[:3] != want: bad.append(("plan.call through " + want[1], got))
+        if e.call is not node: bad.append(("CallError.call is not the failing call", e.call))
+        msg = str(e).splitlines()
+        if not (msg[-1].strip().endswith("in helper") and "line" in msg[-1]): bad.append(("rendered message does not end at the creating line", msg[-2:]))
+plan2 = uberjob.Plan()
+g = gathered(plan2, plan2.call(mklist))
+try: uberjob.run(plan2, output=g, progress=None)
+except uberjob.CallError as e:
+    got = frames(e.call.stack_frame)
+    if got[:2] != ["gathered", "<module>"]: bad.append(("implicit gather of a structured argument", got))
+for b in bad: print("C19 violated:", b)
+sys.exit(1 if bad else 0)
+"""
+
+
+def _replay19(ob):
+    import os
+    import subprocess
+    import tempfile
+
+    from ujvc.z3env import REPO_SRC
+
+    with tempfile.NamedTemporaryFile("w", suffix=".py", delete=False) as f:
+        f.write(C19_SCRIPT)
+        path = f.name
+    try:
+        p = subprocess.run(["/venv/bin/python", path], env=dict(os.environ, PYTHONPATH=REPO_SRC), capture_output=True, text=True, timeout=120)
+    finally:
+        os.unlink(path)
+    return {"reproduced": p.returncode == 1, "detail": (p.stdout + p.stderr)[-2000:], "script": C19_SCRIPT}
+
+
+REPLAYS = [("tracebacks.CallError*", _replay), ("tracebacks.*", _replay19)]
